@@ -260,6 +260,13 @@ def check(tier):
     texts = [spec_of_defs(s_) for s_ in sets] + [spec_of_defs(s_, named=True) for s_ in with_lits]
     sets = sets + with_lits
     res = C.hook_map([{"op": "spec_dfa", "text": t} for t in texts], timeout_each=30)
+    # one text used as a string in one specification and as a pattern in another, both orders, in ONE process one after the other:
+    # each scanner is judged on its own definitions like any other (what an earlier specification was must not matter)
+    hist_sets = [['"a+"', "/[b-z]+/"], ["/a+/", '"b"'], ["/x.y/", '"q"'], ['"x.y"', "/[a-z]+/"], ['"a+"', "/[b-z]+/"], ['"if"', "/[0-9]+/"], ["/if/", '"0"'], ['"if"', "/[a-z]+/"]]
+    hist_texts = [spec_of_defs(s_) for s_ in hist_sets]
+    res = C.hook_batch([{"op": "spec_dfa", "text": t} for t in hist_texts]) + res
+    sets = hist_sets + sets
+    texts = hist_texts + texts
     insts, meta, dist = [], [], {"accepted": 0, "conflict": 0, "spec_rejected": 0, "nul_set_skipped": 0, "slow": 0}
     other_errors, value_bad = [], []
     for s, t, r in zip(sets, texts, res):
